@@ -53,7 +53,12 @@ CONFIG = {
             "forms, 13 raw header lines x 3 positions x both messages, upgrade method x Connection x Upgrade grid, EOL "
             "variants with shuffled header order, truncation at every byte of two well-formed streams, oversized lines "
             "(4000..8193, 65536, 1 MiB; thorough 4 MiB) in value/key/request line/continuation/no newline, CR at the "
-            "buffer boundary, random garbage, 1-3 random edits of a valid stream. hs-client: analogous for replies "
+            "buffer boundary, random garbage, 1-3 random edits of a valid stream; after every refusal class (400 by 8 request-line shapes x "
+            "version header none / supported / foreign, 400 by 3 header shapes, 405 x 3, 409 x 4; at the upgrade step 405 x 2, 406 x 5, "
+            "503 x 2, 500, 2 unparsable) every continuation: the upgrade request for the empty / no / each supported / the 'announced' "
+            "version, with trailing data, with StartTLS against a real TLS peer, a well-formed announce+upgrade pair, a pipelined copy "
+            "of the refused message, two upgrades, bytes the peer sends only after it has read the answer, random chains. "
+            "hs-client: analogous for replies "
             "(33 status-line forms incl. ParseInt corner cases, Protocol-Version forms, capabilities forms; after each of 15 error "
             "answers to the announce and 11 to the upgrade request: 200+101, 101, the same answer again, late bytes, random chains). Both: `par <G> <iters> "
             "op ; op ; ...` batches - every refusal (8 unparsable request lines, 7 foreign methods, version / upgrade refusals, "
